@@ -302,7 +302,9 @@ func c19Matrix(c *Ctx) {
 			sl, ok := res[0].(*absint.Slice)
 			want := c19RefMatrixLine(n, m)
 			if !ok || sl.Len() != len(want) {
-				bad = fmt.Sprintf("line %d has the wrong length", n)
+				// not one coefficient per fragment: the line is kept in some other representation (a bit set …); the
+				// lines Encode actually uses are decided through R6.parity
+				undec = fmt.Sprintf("matrixLine does not return one element per fragment (line %d: %s)", n, short(in.Show(res[0])))
 				break
 			}
 			for k := range want {
